@@ -100,6 +100,11 @@ Width(p) ==
     [] p.op = "join" -> IF p.jt \in {"semi", "anti"} THEN p.lw ELSE p.lw + p.rw
     [] p.op = "agg" -> Len(p.keys) + Len(p.aggs)
     [] p.op = "setop" -> Width(p.l)
+    [] p.op = "ufilter" -> Len(Schemas[p.t])
+    [] p.op = "window" -> Width(p.src) + 1
+    [] p.op \in {"distincton", "pack"} -> Width(p.src)
+    [] p.op = "lateral" -> p.lw + p.rw
+    [] p.op = "aggsets" -> Len(p.keys) + Len(p.aggs)
 Filter(pr, s) == [op |-> "filter", p |-> pr, src |-> s]
 Limit(sk, fe, s) == [op |-> "limit", skip |-> sk, fetch |-> fe, src |-> s]
 EmptyOf(p) == Limit(0, 0, p)                                  \* an empty relation of p's shape
@@ -192,11 +197,11 @@ Rw(name, p) ==
 
 \* apply at the first matching node (top-down, left to right)
 RECURSIVE Matches(_, _), RwAny(_, _)
-Kids(p) == IF p.op \in {"join", "setop"} THEN <<p.l, p.r>> ELSE IF p.op = "scan" THEN <<>> ELSE <<p.src>>
+Kids(p) == IF p.op \in {"join", "setop", "lateral"} THEN <<p.l, p.r>> ELSE IF p.op \in {"scan", "ufilter"} THEN <<>> ELSE <<p.src>>
 Matches(name, p) == Applies(name, p) \/ \E i \in 1..Len(Kids(p)) : Matches(name, Kids(p)[i])
 RwAny(name, p) ==
   IF Applies(name, p) THEN Rw(name, p)
-  ELSE IF p.op \in {"join", "setop"}
+  ELSE IF p.op \in {"join", "setop", "lateral"}
          THEN IF Matches(name, p.l) THEN [p EXCEPT !.l = RwAny(name, p.l)] ELSE [p EXCEPT !.r = RwAny(name, p.r)]
          ELSE [p EXCEPT !.src = RwAny(name, p.src)]
 
@@ -214,68 +219,68 @@ Equiv(p, q, db) ==
 
 (* ---------------- plan families shaped for each schema ---------------- *)
 SidePred(sch, lo, hi, sd) ==    \* predicate over columns lo..hi of schema sch (one column, or a constant)
-  LET c == lo + Rnd(Mix(sd, 1), hi - lo + 1) IN
-  IF Chance(10, Mix(sd, 2)) THEN PickSeq(<<FalseE, LitT(Null, "b"), TrueE>>, Mix(sd, 3))
-  ELSE IF sch[c] = "b" THEN PickSeq(<<Col(c), Un("isnottrue", Col(c)), Un("isnull", Col(c))>>, Mix(sd, 3))
-  ELSE ColPred(c, sch[c], Mix(sd, 3))
+  LET c == lo + Rnd(MixS(sd, 1), hi - lo + 1) IN
+  IF Chance(10, MixS(sd, 2)) THEN PickSeq(<<FalseE, LitT(Null, "b"), TrueE>>, MixS(sd, 3))
+  ELSE IF sch[c] = "b" THEN PickSeq(<<Col(c), Un("isnottrue", Col(c)), Un("isnull", Col(c))>>, MixS(sd, 3))
+  ELSE ColPred(c, sch[c], MixS(sd, 3))
 JoinOf(jt, on, a, b) == [op |-> "join", jt |-> jt, on |-> on, l |-> a.p, r |-> b.p, lw |-> Len(a.sch), rw |-> Len(b.sch)]
 EqOn(a, b, sd) ==
   IF ColsOf(a.sch, "i") # {} /\ ColsOf(b.sch, "i") # {}
-    THEN Bin("=", Col(PickCol(a.sch, "i", Mix(sd, 1))), Col(Len(a.sch) + PickCol(b.sch, "i", Mix(sd, 2))))
+    THEN Bin("=", Col(PickCol(a.sch, "i", MixS(sd, 1))), Col(Len(a.sch) + PickCol(b.sch, "i", MixS(sd, 2))))
     ELSE TrueE
 AllJt == <<"inner", "left", "right", "full", "semi", "anti">>
 OutJt == <<"inner", "left", "right", "full">>
-Input(sd) == GenS(IF Chance(60, sd) THEN 0 ELSE 1, Mix(sd, 5))
+Input(sd) == GenS(IF Chance(60, sd) THEN 0 ELSE 1, MixS(sd, 5))
 
 Family(name, sd) ==
-  LET a == Input(Mix(sd, 1))  b == Input(Mix(sd, 2))
+  LET a == Input(MixS(sd, 1))  b == Input(MixS(sd, 2))
       lw == Len(a.sch)  rw == Len(b.sch)  both == a.sch \o b.sch
-      jt == PickSeq(AllJt, Mix(sd, 3))  ojt == PickSeq(OutJt, Mix(sd, 3))
-      on == EqOn(a, b, Mix(sd, 4))
-      sk == Rnd(Mix(sd, 6), 2)  fe == Rnd(Mix(sd, 7), 3)
-      nk == Rnd(Mix(sd, 8), 3)
-      keys == [k \in 1..nk |-> Col(Rnd(Mix(sd, 20 + k), lw) + 1)]
+      jt == PickSeq(AllJt, MixS(sd, 3))  ojt == PickSeq(OutJt, MixS(sd, 3))
+      on == EqOn(a, b, MixS(sd, 4))
+      sk == Rnd(MixS(sd, 6), 2)  fe == Rnd(MixS(sd, 7), 3)
+      nk == Rnd(MixS(sd, 8), 3)
+      keys == [k \in 1..nk |-> Col(Rnd(MixS(sd, 20 + k), lw) + 1)]
       kks == [k \in 1..nk |-> a.sch[keys[k].i]]
-      ag == GenAgg(a.sch, Mix(sd, 9)).a
+      ag == GenAgg(a.sch, MixS(sd, 9)).a
       aggP == [op |-> "agg", keys |-> keys, aggs |-> <<ag>>, src |-> a.p] IN
-  CASE name = "filter_join_left" -> Filter(SidePred(both, 1, lw, Mix(sd, 10)), JoinOf(jt, on, a, b))
-    [] name = "filter_join_right" -> Filter(SidePred(both, lw + 1, lw + rw, Mix(sd, 10)), JoinOf(ojt, on, a, b))
-    [] name = "on_to_right" -> JoinOf(jt, Bin("and", on, SidePred(both, lw + 1, lw + rw, Mix(sd, 10))), a, b)
-    [] name = "on_to_left" -> JoinOf(jt, Bin("and", on, SidePred(both, 1, lw, Mix(sd, 10))), a, b)
-    [] name = "filter_agg" -> Filter(IF nk = 0 THEN PickSeq(<<FalseE, TrueE, LitT(Null, "b")>>, Mix(sd, 10))
-                                     ELSE SidePred(kks, 1, nk, Mix(sd, 10)), aggP)
-    [] name = "outer_to_inner" -> Filter(IF Chance(70, Mix(sd, 11)) THEN SidePred(both, 1, lw + rw, Mix(sd, 10))
-                                         ELSE GenE("b", 2, both, <<>>, Mix(sd, 10)),
-                                         JoinOf(PickSeq(<<"left", "right", "full">>, Mix(sd, 3)), on, a, b))
-    [] name = "limit_project" -> Limit(sk, fe, [op |-> "project", es |-> [k \in 1..2 |-> GenE("i", 1, a.sch, <<>>, Mix(sd, 30 + k))], src |-> a.p])
-    [] name = "limit_union" -> Limit(sk, fe, [op |-> "setop", f |-> "union", all |-> Chance(50, Mix(sd, 10)), l |-> a.p,
-                                              r |-> [op |-> "project", es |-> [k \in 1..lw |-> GenE(a.sch[k], 0, b.sch, <<>>, Mix(sd, 30 + k))], src |-> b.p]])
-    [] name = "limit_join" -> Limit(sk, fe, JoinOf(ojt, on, a, b))
-    [] name = "limit_filter" -> Limit(sk, fe, Filter(SidePred(a.sch, 1, lw, Mix(sd, 10)), a.p))
+  CASE name = "filter_join_left" -> Filter(SidePred(both, 1, lw, MixS(sd, 10)), JoinOf(jt, on, a, b))
+    [] name = "filter_join_right" -> Filter(SidePred(both, lw + 1, lw + rw, MixS(sd, 10)), JoinOf(ojt, on, a, b))
+    [] name = "on_to_right" -> JoinOf(jt, Bin("and", on, SidePred(both, lw + 1, lw + rw, MixS(sd, 10))), a, b)
+    [] name = "on_to_left" -> JoinOf(jt, Bin("and", on, SidePred(both, 1, lw, MixS(sd, 10))), a, b)
+    [] name = "filter_agg" -> Filter(IF nk = 0 THEN PickSeq(<<FalseE, TrueE, LitT(Null, "b")>>, MixS(sd, 10))
+                                     ELSE SidePred(kks, 1, nk, MixS(sd, 10)), aggP)
+    [] name = "outer_to_inner" -> Filter(IF Chance(70, MixS(sd, 11)) THEN SidePred(both, 1, lw + rw, MixS(sd, 10))
+                                         ELSE GenE("b", 2, both, <<>>, MixS(sd, 10)),
+                                         JoinOf(PickSeq(<<"left", "right", "full">>, MixS(sd, 3)), on, a, b))
+    [] name = "limit_project" -> Limit(sk, fe, [op |-> "project", es |-> [k \in 1..2 |-> GenE("i", 1, a.sch, <<>>, MixS(sd, 30 + k))], src |-> a.p])
+    [] name = "limit_union" -> Limit(sk, fe, [op |-> "setop", f |-> "union", all |-> Chance(50, MixS(sd, 10)), l |-> a.p,
+                                              r |-> [op |-> "project", es |-> [k \in 1..lw |-> GenE(a.sch[k], 0, b.sch, <<>>, MixS(sd, 30 + k))], src |-> b.p]])
+    [] name = "limit_join" -> Limit(0, 1 + Rnd(MixS(sd, 7), 2), JoinOf(ojt, on, a, b))   \* small fetch: the pushed limit really truncates
+    [] name = "limit_filter" -> Limit(sk, fe, Filter(SidePred(a.sch, 1, lw, MixS(sd, 10)), a.p))
     [] name = "limit_agg" -> Limit(sk, fe, aggP)
-    [] name = "empty_join" -> LET e == PickSeq(<<FalseE, LitT(Null, "b")>>, Mix(sd, 10))
-                                  l2 == IF Chance(50, Mix(sd, 11)) THEN [a EXCEPT !.p = Filter(e, a.p)] ELSE a
-                                  r2 == IF l2 = a \/ Chance(30, Mix(sd, 12)) THEN [b EXCEPT !.p = Filter(e, b.p)] ELSE b IN
+    [] name = "empty_join" -> LET e == PickSeq(<<FalseE, LitT(Null, "b")>>, MixS(sd, 10))
+                                  l2 == IF Chance(50, MixS(sd, 11)) THEN [a EXCEPT !.p = Filter(e, a.p)] ELSE a
+                                  r2 == IF l2 = a \/ Chance(30, MixS(sd, 12)) THEN [b EXCEPT !.p = Filter(e, b.p)] ELSE b IN
                               JoinOf(jt, on, l2, r2)
-    [] name = "empty_agg" -> [aggP EXCEPT !.src = IF Chance(50, Mix(sd, 10)) THEN Filter(FalseE, a.p) ELSE Limit(0, 0, a.p)]
+    [] name = "empty_agg" -> [aggP EXCEPT !.src = IF Chance(50, MixS(sd, 10)) THEN Filter(FalseE, a.p) ELSE Limit(0, 0, a.p)]
     [] name = "distinct_groupby" -> [op |-> "distinct", src |-> a.p]
     [] name = "single_distinct" ->
-         LET x == IF ColsOf(a.sch, "i") # {} THEN Col(PickCol(a.sch, "i", Mix(sd, 10))) ELSE LitT(I(1), "i")
-             d1 == [f |-> PickSeq(<<"count", "sum", "min", "max">>, Mix(sd, 11)), e |-> x, distinct |-> TRUE]
+         LET x == IF ColsOf(a.sch, "i") # {} THEN Col(PickCol(a.sch, "i", MixS(sd, 10))) ELSE LitT(I(1), "i")
+             d1 == [f |-> PickSeq(<<"count", "sum", "min", "max">>, MixS(sd, 11)), e |-> x, distinct |-> TRUE]
              d2 == PickSeq(<<[f |-> "countstar", e |-> LitT(I(1), "i"), distinct |-> FALSE],
                              [f |-> "sum", e |-> x, distinct |-> FALSE],
-                             [f |-> "count", e |-> x, distinct |-> TRUE]>>, Mix(sd, 12)) IN
-         [aggP EXCEPT !.aggs = IF Chance(50, Mix(sd, 13)) THEN <<d1>> ELSE <<d1, d2>>]
+                             [f |-> "count", e |-> x, distinct |-> TRUE]>>, MixS(sd, 12)) IN
+         [aggP EXCEPT !.aggs = IF Chance(50, MixS(sd, 13)) THEN <<d1>> ELSE <<d1, d2>>]
     [] name = "union_filter" ->
-         [op |-> "setop", f |-> "union", all |-> Chance(50, Mix(sd, 10)),
-          l |-> Filter(SidePred(a.sch, 1, lw, Mix(sd, 11)), a.p), r |-> Filter(SidePred(a.sch, 1, lw, Mix(sd, 12)), a.p)]
+         [op |-> "setop", f |-> "union", all |-> Chance(50, MixS(sd, 10)),
+          l |-> Filter(SidePred(a.sch, 1, lw, MixS(sd, 11)), a.p), r |-> Filter(SidePred(a.sch, 1, lw, MixS(sd, 12)), a.p)]
     [] name = "null_join_keys" -> JoinOf(jt, on, a, b)
     [] name = "sort_const" ->
          LET cb == [p |-> [op |-> "project", es |-> <<Col(1), LitT(I(1), "i")>>, src |-> b.p], sch |-> <<b.sch[1], "i">>]
              ca == [p |-> [op |-> "project", es |-> <<Col(1), LitT(I(2), "i")>>, src |-> a.p], sch |-> <<a.sch[1], "i">>]
              on2 == IF a.sch[1] = "i" /\ b.sch[1] = "i" THEN Bin("=", Col(1), Col(3)) ELSE TrueE
-             key == PickSeq(<<2, 4>>, Mix(sd, 10)) IN
-         [op |-> "sort", keys |-> <<[i |-> key, asc |-> Chance(50, Mix(sd, 11)), nf |-> Chance(50, Mix(sd, 12))]>>,
+             key == PickSeq(<<2, 4>>, MixS(sd, 10)) IN
+         [op |-> "sort", keys |-> <<[i |-> key, asc |-> Chance(50, MixS(sd, 11)), nf |-> Chance(50, MixS(sd, 12))]>>,
           src |-> JoinOf(ojt, on2, ca, cb)]
 
 (* ---------------- model ---------------- *)
@@ -288,7 +293,7 @@ RNext == UNCHANGED rvars
 PlanOf == IF kind = "family" THEN Family(RwNames[rw], planseed) ELSE GenS(DEPTH, planseed).p
 Fires == IF kind = "family" THEN Applies(RwNames[rw], PlanOf) ELSE Matches(RwNames[rw], PlanOf)
 After == IF kind = "family" THEN Rw(RwNames[rw], PlanOf) ELSE RwAny(RwNames[rw], PlanOf)
-DBs == [d \in 1..NDBS |-> GenDB(Mix(dbseed, d))]
+DBs == [d \in 1..NDBS |-> GenDB(MixS(dbseed, d))]
 
 \* the design-level statement: a rewrite that applies preserves the result on every database of the slice
 Sound == Fires => \A d \in 1..NDBS : Equiv(PlanOf, After, DBs[d])
